@@ -82,6 +82,8 @@ pub fn data_a() -> Value {
     m.insert("ts".into(), json!(["x", 5e-324, -1e-300]));
     m.insert("fs".into(), json!([0, "", []]));
     m.insert("name".into(), json!("Bé"));
+    m.insert("mk".into(), json!({"var": "t0"}));
+    m.insert("mk3".into(), json!({"==": [1]}));
     m.insert("o".into(), json!({"k.x": 1e-20, "deep": {"er": [0]}, "zero": 0}));
     Value::Object(m)
 }
@@ -323,6 +325,32 @@ pub fn run(ctx: &mut Ctx) {
                     let rb = rename_current(b);
                     ctx.check("in-iteration-body:reduce", &json!({"reduce": [{"var": "xs"}, {"cat": [{"var": "accumulator"}, rb]}, ""]}), &json!({"xs": c}));
                 }
+            }
+        }
+    }
+    // data that LOOKS like a rule, fetched by the operand that is RETURNED (then-branch, else-if branch, trailing
+    // else, single operand; the deciding operand of and / or): it is returned as fetched, not evaluated again
+    if ctx.mine() {
+        let d = json!({"mk": {"var": "flag"}, "mk2": {"cat": ["a", "b"]}, "mk3": {"==": [1]}, "mk4": {"log": "LEAK"}, "flag": false, "t": 1});
+        for m in ["mk", "mk2", "mk3", "mk4"] {
+            let mv = json!({"var": m});
+            for k in ["if", "?:"] {
+                for r in [
+                    op(k, vec![mv.clone()]),
+                    op(k, vec![json!({"var": "flag"}), json!("on"), mv.clone()]),
+                    op(k, vec![json!({"var": "t"}), mv.clone(), json!("off")]),
+                    op(k, vec![json!({"var": "t"}), mv.clone()]),
+                    op(k, vec![json!(0), json!("a"), json!({"var": "flag"}), json!("b"), mv.clone()]),
+                    op(k, vec![json!(0), json!("a"), json!({"var": "t"}), mv.clone(), json!("c")]),
+                    op(k, vec![mv.clone(), mv.clone(), json!("else")]),
+                ] {
+                    ctx.edge();
+                    ctx.check("returned-operand-is-data", &r, &d);
+                }
+            }
+            for r in [json!({"and": [mv]}), json!({"and": [1, "x", mv]}), json!({"or": [mv]}), json!({"or": [0, "", mv]}), json!({"or": [0, mv, {"+": ["x"]}]}), json!({"and": [mv, 0]}), json!({"or": [{"and": [1, mv]}, 2]})] {
+                ctx.edge();
+                ctx.check("returned-operand-is-data", &r, &d);
             }
         }
     }
